@@ -631,13 +631,26 @@ func TestGovcBounded_C15(t *testing.T) {
 		}
 		r.outcome("subst-missing")
 		r.done()
+		// an attribute that only has deeper keys is absent: it takes its default
+		cfg = cloneCfg(base)
+		delete(cfg, "logger.myLogger.bufferSize")
+		cfg["logger.myLogger.bufferSize.extra"] = "1"
+		if err, p := r.refresh(cfg); p != "" {
+			r.fail("Refresh panics when an attribute name only has deeper keys: "+p, cfg)
+		} else if err == nil {
+			if al, _ := findLogger("myLogger").(*AsyncLogger); al == nil || al.BufferSize != 10000 {
+				r.fail("an attribute that only has deeper keys does not take its declared default 10000", cfg)
+			}
+		}
+		r.outcome("deeper-keys-only")
+		r.done()
 	}
 
 	// (5) values that do not convert, unknown classes, dangling references: an error, never a panic
 	bad := map[string][]string{
-		"logger.myLogger.bufferSize":            {"abc", "", "1.5", "12x", "0x", "999999999999999999999999"},
+		"logger.myLogger.bufferSize":            {"abc", "", "1.5", "12x", "0x", "999999999999999999999999", "<nil>", "{}", "[]", "${appender}", "${logger.root}"},
 		"logger.myLogger.bufferFullPolicy":      {"block", "Drop", "", "1"},
-		"logger.root.level":                     {"loud", "info~", "~error", "info~loud", "~"},
+		"logger.root.level":                     {"loud", "info~", "~error", "info~loud", "~", "<nil>", "{}", "[]"},
 		"logger.myLogger.appenderRef[1].level":  {"x", "warn~y"},
 		"appender.roll.rotation":                {"", "1h", "hourly", "H"},
 		"appender.roll.maxAge":                  {"x", "", "1e3", "99999999999", "-99999999999", "1.0"},
@@ -647,7 +660,7 @@ func TestGovcBounded_C15(t *testing.T) {
 		"appender.console.layout.fileLineLength": {"wide", "4.5", ""},
 		"logger.root.appenderRef.ref":           {"nope", "", "Console"},
 		"logger.myLogger.appenderRef[0].ref":    {"missing"},
-		"bufferCap":                             {"10", "KB", "1GB", "-1KB", "1.5KB"},
+		"bufferCap":                             {"10", "KB", "1GB", "-1KB", "1.5KB", "2048MB", "4096MB", "9007199254740993MB"},
 		"enableCaller":                          {"yes!", "2"},
 	}
 	var bkeys []string
